@@ -68,7 +68,10 @@ func (c *Counter[T]) Add(v T) {
 		return
 	}
 	c.buf.Add(v)
-	if c.buf.Len() >= c.cap {
+
+	// A pass may evict nothing (with probability 2^-Len), so repeat until the
+	// buffer has room again; otherwise it would grow past its capacity.
+	for c.buf.Len() >= c.cap && c.buf.Len() > 0 {
 		// Instead of flipping a coin for each element, grab blocks of 64 random
 		// bits and use them directly, refilling only as needed.
 		var nb, rnd uint64
